@@ -204,3 +204,41 @@ PLANS["C18"] = {
             "sort confusion, odd numerals), unsupported or ill-formed commands injected at random positions, shuffled command order; "
             "file and pipe; AddressSanitizer+UBSan build; the specification's reject/exit-status rules are the oracle",
 }
+
+ARITH_LOGICS = ["QF_LRA", "QF_LIA", "QF_UFLRA", "QF_UFLIA", "QF_RDL", "QF_IDL", "QF_ALIA", "QF_AUFLIA"]
+THEORY_LOGICS = ["QF_UF", "QF_LRA", "QF_LIA", "QF_RDL", "QF_IDL", "QF_UFLRA", "QF_UFLIA", "QF_UFIDL", "QF_UFRDL", "QF_AX", "QF_ALIA", "QF_AUFLIA"]
+def engine_jobs(seed, pid, n, logics, cfgsets, **kw):
+    jobs = spread(seed, pid, n, logics, "engine", **kw)
+    for i, j in enumerate(jobs):
+        j["cfgs"] = cfgsets[i % len(cfgsets)]
+        j["mode"] = kw.get("modes", ["unsatbiased", "random", "random"])[i % len(kw.get("modes", [1, 2, 3]))]
+    return jobs
+PLANS["C11"] = {
+    "module": "Engine_Trace",
+    "jobs": lambda seed, tier: engine_jobs(seed, "C11", N(tier, 150, 3000), THEORY_LOGICS,
+                                           [["c0"], ["c0", "la"], ["ghost"], ["picky"], ["proofs"], ["seed"]], need="tcl"),
+    "rule": "every theory clause (conflict, explanation of a propagation, split, root-level deduction) of runs over the theory "
+            "logics and engines; the kernel evaluates candidate models of the negated clause; non-trivial = the run produced a theory clause",
+}
+PLANS["C12"] = {
+    "module": "Engine_Trace",
+    "jobs": lambda seed, tier: engine_jobs(seed, "C12", N(tier, 150, 3000), ALL_LOGICS,
+                                           [["c0"], ["la"], ["ghost"], ["noinc"], ["picky"], ["c0", "noinc"], ["ccmin0"], ["rf1"]],
+                                           need="learnt", n_atoms=8, n_assert=8, modes=["cnf", "cnf", "random", "cnf", "unsatbiased"]),
+    "rule": "every learnt or derived clause (conflict analysis in search / handleUnsat / lookahead, SatELite resolvents and "
+            "strengthening, units of split clauses) must be RUP w.r.t. the inputs, theory clauses and earlier learnt clauses; "
+            "non-trivial = the run learnt a clause",
+}
+PLANS["C13"] = {
+    "module": "Engine_Trace",
+    "jobs": lambda seed, tier: engine_jobs(seed, "C13", N(tier, 140, 2800), ALL_LOGICS,
+                                           [["c0"], ["cores"], ["itp"], ["nosubst"], ["proofs"]], need="frames"),
+    "rule": "per frame: asserted formulas versus the roots given to the CNF converter for all active frames (whole-frame and "
+            "per-partition mode); the kernel evaluates candidate models of (given and not asserted)",
+}
+PLANS["C26"] = {
+    "module": "Engine_Trace",
+    "jobs": lambda seed, tier: engine_jobs(seed, "C26", N(tier, 150, 3000), ARITH_LOGICS,
+                                           [["c0"], ["itp"], ["la"], ["seed"]], need="farkas", n_atoms=6),
+    "rule": "every conflict of the LA solver with its coefficients; non-trivial = at least one Farkas certificate was checked",
+}
